@@ -12,6 +12,7 @@ import (
 
 // Val is a symbolic Go value: a vector of scalar terms laid out by layout(T).
 type Val struct {
+	Set *Sort // non-nil: the value is a set (Array elem Bool), L[0] is the array term
 	T   types.Type
 	L   []Term
 	Loc *Loc          // static location for pointers derived in this function
